@@ -29,7 +29,7 @@ def budget(tier):
 def run_case(cs):
     rng = cs.rng
     d = cs.dir()
-    root = os.path.join(d, "R" + world.gen_name(rng, rng.choice(["plain", "space", "uni"]), ext=False))
+    root = os.path.join(d, world.root_name(rng))
     skel = rng.choice([[], ["K"], ["K", "K/L"], ["K", "K/L", "K/L/M"], ["A", "B"], ["A", "B", "A/C"]])
     tree = {}
     for s in skel + ["plain", "plain/deep"]:
